@@ -43,3 +43,17 @@ claim("C28", SM,
       "random histories over 6 names / 6 offsets with merges validated by TLC.",
       "TLC; merge only required for non-conflicting foreign databases; live LocKey arguments", "DESIGN.md 5/C28, B.2",
       "LocationDB")
+
+claim("C26", SM,
+      "Interval.tla: two registers holding finite integer sets; TLC enumerates every pair of sets reachable through "
+      "constructor lists (reversed, adjacent, nested bounds) and union/intersection/difference and every observer "
+      "(membership, inclusion, length, hull, equality, emptiness); each edge is replayed on miasm.core.interval with a "
+      "canonical-form check; random histories over 0..24 are validated by TLC.",
+      "TLC; integer universe bounded (0..6 exhaustive, 0..24 recorded)", "DESIGN.md 5/C26, B.8", "Interval")
+
+claim("C45", SM,
+      "LibImp.tla: stub allocation with library/function strides as constants; TLC checks injectivity, stability and "
+      "same-answer on scaled-down strides where library areas overflow, every history of depth<=5/7 over 4 library "
+      "names x 4 functions is replayed on libimp (returned addresses, fad2info/fad2cname inverses), and 900-call "
+      "histories giving one library more than 256 functions are validated by TLC with the real constants.",
+      "TLC; only the fake-library path of libimp (lib_get_add_base/lib_get_add_func)", "DESIGN.md 5/C45, B.8", "LibImp")
